@@ -345,7 +345,8 @@ func (p *player) Bet(chips int64) error {
 
 	p.pay(chips, true)
 
-	p.game.GetState().Status.PreviousRaiseSize = chips
+	// The minimum raise is the bet actually made: a bet above the stack is an all-in for less
+	p.game.GetState().Status.PreviousRaiseSize = p.state.Wager
 
 	p.game.UpdateLastAction(p.idx, "bet", chips)
 
